@@ -625,6 +625,78 @@ func extractCodec(w *strings.Builder) error {
 	fmt.Fprintf(w, "def encodeAnyTypeArgs : List String := %s\n", leanStrList(anyTypeArg))
 	fmt.Fprintf(w, "def encodeAnyDataArgs : List String := %s\n", leanStrList(anyDataArg))
 
+	// ---- the integer arm of scalarReflectFromGo: every call it makes, in source order. The model's
+	// `decodeScalar` for the four integer kinds mirrors exactly this conversion chain (json.Number ->
+	// ParseUint for UINT64, Int64() = ParseInt(…, 10, 64) otherwise; strings through ParseInt / ParseUint
+	// with the format's bit size; no route through float64).
+	intCalls := []string{"<unknown>"}
+	if fd := funcDecl(vg, "scalarReflectFromGo"); fd != nil {
+		if outer := findSwitch(fd.Body, "schema.Type"); outer != nil {
+			for _, cc := range clausesOf(outer) {
+				for _, name := range caseNames(cc) {
+					if name == "Field_Integer" {
+						intCalls = nil
+						for _, c := range callNames(clauseBlock(cc)) {
+							// result constructors, error constructors and the four integer type
+							// conversions are not conversions of the INPUT: left out
+							if strings.HasPrefix(c, "protoreflect.ValueOf") || c == "fmt.Errorf" ||
+								c == "int32" || c == "int64" || c == "uint32" || c == "uint64" {
+								continue
+							}
+							intCalls = append(intCalls, c)
+						}
+					}
+				}
+			}
+		}
+	}
+	fmt.Fprintf(w, "def reflectFromGoIntegerConversions : List String := %s\n", leanStrList(intCalls))
+
+	// ---- the scalar writers: per Go-type arm of encodeScalarField the calls it makes (in source
+	// order, outermost first), and per primitive of encoder.go its calls and string / char literals.
+	// The model's `encodeScalar` mirrors exactly these: which kinds are quoted (addQuoted / addString)
+	// and which are bare (add), base64.StdEncoding in one piece, FormatFloat 'g' -1, the three
+	// non-finite literals.
+	fmt.Fprint(w, "def encodeScalarCalls : List (String × List String) := [")
+	if fd := funcDecl(enc, "encodeScalarField"); fd != nil {
+		if sw := findSwitch(fd.Body, "val"); sw != nil {
+			first := true
+			for _, cc := range clausesOf(sw) {
+				calls := callNames(clauseBlock(cc))
+				for _, n := range caseNames(cc) {
+					if !first {
+						fmt.Fprint(w, ",")
+					}
+					first = false
+					fmt.Fprintf(w, "\n  (%s, %s)", leanStr(n), leanStrList(calls))
+				}
+			}
+		} else {
+			fmt.Fprintf(w, "(%s, [])", leanStr("<unknown>"))
+		}
+	} else {
+		fmt.Fprintf(w, "(%s, [])", leanStr("<unknown>"))
+	}
+	fmt.Fprintln(w, "]")
+	fmt.Fprint(w, "def encoderPrimitives : List (String × List String × List String) := [")
+	if _, ef, err := parseFile("internal/codec/encoder.go"); err == nil {
+		for i, fn := range []string{"fieldLabel", "addString", "addQuoted", "addInt32", "addUint32", "addInt64", "addUint64", "addBool", "addFloat", "fieldSep", "openObject", "closeObject", "openArray", "closeArray"} {
+			calls, lits := []string{"<unknown>"}, []string{"<unknown>"}
+			if fd := funcDecl(ef, fn); fd != nil && fd.Body != nil {
+				calls, lits = callNames(fd.Body), basicLits(fd.Body)
+			} else {
+				unknown("func " + fn + " in encoder.go")
+			}
+			if i > 0 {
+				fmt.Fprint(w, ",")
+			}
+			fmt.Fprintf(w, "\n  (%s, %s, %s)", leanStr(fn), leanStrList(calls), leanStrList(lits))
+		}
+	} else {
+		unknown("internal/codec/encoder.go")
+	}
+	fmt.Fprintln(w, "]")
+
 	// decoder constants: maxAnyDepth, the depth handed to the nested decode, the reserved keys
 	maxAny := "0 -- <unknown>"
 	for _, d := range dec.Decls {
@@ -821,6 +893,31 @@ func callLiteralArgs(n ast.Node, fun string, idx int) []string {
 				}
 			}
 			out = append(out, v)
+		}
+		return true
+	})
+	return out
+}
+
+// callNames: the callee of every call expression, in source order (outermost call first;
+// conversions such as []byte(x) and float64(x) included).
+func callNames(n ast.Node) []string {
+	out := []string{}
+	ast.Inspect(n, func(x ast.Node) bool {
+		if ce, ok := x.(*ast.CallExpr); ok {
+			out = append(out, exprString(ce.Fun))
+		}
+		return true
+	})
+	return out
+}
+
+// basicLits: every string / char / int literal, verbatim, in source order.
+func basicLits(n ast.Node) []string {
+	out := []string{}
+	ast.Inspect(n, func(x ast.Node) bool {
+		if bl, ok := x.(*ast.BasicLit); ok {
+			out = append(out, bl.Value)
 		}
 		return true
 	})
